@@ -114,6 +114,16 @@ fn check(plan: &Plan, out: &RunOut) -> CheckOut {
         if fail > 0 {
             co.probe("grease_fired");
         }
+        // the deliberate errors are drawn per response: in a batch of 24 or more all replies fail
+        // with probability p^24 (below 6e-8 at p = 50 %), so one such batch means the draw is shared
+        for b in &v.batches {
+            if b.sends.len() >= 24 {
+                co.probe("grease_big_batch");
+                if b.sends.iter().all(|&i| !matches!(v.sends[i].verdict, Some(Ok(_)))) {
+                    co.violate("C02", "grease_not_per_response", "C02|grease_not_per_response".into(), format!("fault_percentage {}: all {} replies of one batch fail verification", p, b.sends.len()));
+                }
+            }
+        }
     }
     co.sample = Some(serde_json::json!({
         "scenario": plan.scenario, "seed": plan.seed, "workers": spec.workers, "batch_size": spec.batch_size,
